@@ -138,7 +138,15 @@ func (m *messageSenderImpl) messageSenderForPeer(ctx context.Context, p peer.ID)
 	m.strmap[p] = ms
 	m.smlk.Unlock()
 
-	if err := ms.prepOrInvalidate(ctx); err != nil {
+	if invalidated, err := ms.prepOrInvalidate(ctx); err != nil {
+		if !invalidated {
+			// Our context ended while we were waiting for ms.lk, so ms has
+			// not been invalidated and another caller may be using it.
+			// Leave it in the map: removing it here would orphan a valid
+			// sender and leak its stream.
+			return nil, err
+		}
+
 		m.smlk.Lock()
 		defer m.smlk.Unlock()
 
@@ -182,17 +190,20 @@ func (ms *peerMessageSender) invalidate() {
 	}
 }
 
-func (ms *peerMessageSender) prepOrInvalidate(ctx context.Context) error {
+// prepOrInvalidate prepares the stream of ms. If that fails, ms is invalidated
+// and invalidated is true. If the lock could not be taken (ctx ended), ms is
+// left untouched and invalidated is false.
+func (ms *peerMessageSender) prepOrInvalidate(ctx context.Context) (invalidated bool, err error) {
 	if err := ms.lk.Lock(ctx); err != nil {
-		return err
+		return false, err
 	}
 	defer ms.lk.Unlock()
 
 	if err := ms.prep(ctx); err != nil {
 		ms.invalidate()
-		return err
+		return true, err
 	}
-	return nil
+	return false, nil
 }
 
 func (ms *peerMessageSender) prep(ctx context.Context) error {
